@@ -288,7 +288,7 @@ func c14evalOut(src string) string {
 
 func c14run(r *report.Run) {
 	thorough := r.Tier == "thorough"
-	r.Rule("scalars: bool, all 256 int8/uint8, 32-bit boundary sets, ~5k floats (4 mantissas x 10^-330..10^310, both signs, +-0, Inf, NaN, max, denormal, neighbours of the %v thresholds), strings; containers: every value of depth <=3 over 5 typed leaf pairs built from slices (nil, empty, 1, 2 elements) and nil/empty/single-entry maps of 4 key kinds, linear chains to depth 5; Println with 1..4 operands of every kind combination; struct references with 0..4 scalar fields; each through Value.String, println, fmt.Println, fmt.Print, fmt.Sprint; cyclic graphs on <=3 nodes printed in child processes; non-trivial = distinct rendered value other than a plain small integer")
+	r.Rule("scalars: bool, all 256 int8/uint8, 32-bit boundary sets, ~5k floats (4 mantissas x 10^-330..10^310, both signs, +-0, Inf, NaN, max, denormal, neighbours of the %v thresholds), strings; containers: every value of depth <=3 over 5 typed leaf pairs built from slices (nil, empty, 1, 2 elements) and nil/empty/single-entry maps of 4 key kinds, linear chains to depth 5; Println with 1..4 operands of every kind combination; struct references with 0..4 scalar fields; each through Value.String, println, fmt.Println, fmt.Print, fmt.Sprint; values with a past (maps of four key kinds emptied to 0 or 1 entry by every order of deletes, on their own / in a slice / as a struct field; re-sliced and appended slices; struct types declared again); cyclic graphs on <=3 nodes printed in child processes; non-trivial = distinct rendered value other than a plain small integer")
 	r.Assume("fmt.Sprint / Sprintln / %+v on the equivalent native value is the oracle; `println` is judged on goatlang's own terms (same text as fmt.Println on stdout)", "multi-entry maps are excluded (iteration order), as in the property")
 	// ---- scalars through a host value bound to a global
 	type sc struct {
@@ -468,10 +468,147 @@ func c14run(r *report.Run) {
 			}
 		}
 	}
+	// ---- values with a past: a rendering shows the value as it is now, whatever happened to it before
+	c14past(r)
 	// ---- termination on cyclic graphs (child processes)
 	c14cyclic(r, thorough)
 	if r.Expired() {
 		r.NotExhaustive("internal deadline reached")
+	}
+}
+
+// values with a past ------------------------------------------------------------------
+//
+// (1) maps of four key kinds filled with 2..3 entries and emptied again to 0 or 1 entry by every choice and order of
+// deletes (also deleted and re-inserted), printed on their own, inside a slice and as a struct field; (2) slices after
+// append / re-slice / element stores; (3) struct references of a type that was declared again (same fields, or one more)
+// in a later Eval chunk, and instances created before and after that.
+
+func c14past(r *report.Run) {
+	type kk struct {
+		typ  string
+		lits []string
+		show []string
+	}
+	kinds := []kk{{"string", []string{`"a"`, `"b"`, `"c"`}, []string{"a", "b", "c"}}, {"int", []string{"1", "2", "3"}, []string{"1", "2", "3"}}, {"float64", []string{"0.5", "1.0", "2.5"}, []string{"0.5", "1", "2.5"}}, {"bool", []string{"true", "false"}, []string{"true", "false"}}}
+	run := func(kind, src, want string) {
+		got := c14evalOut(src)
+		r.Eval(4)
+		r.Nontrivial(src)
+		if got != want {
+			r.Fail(&report.Case{Kind: kind, Key: src, Input: c14case{Kind: "program", Src: src}, Want: want, Got: got})
+		}
+	}
+	tail := "println(x)\nfmt.Println(x)\nfmt.Print(x)\nfmt.Print(\"|\")\nfmt.Print(fmt.Sprint(x))\nfmt.Print(\"|\")\n"
+	for _, k := range kinds {
+		n := len(k.lits)
+		// every ordered sequence of distinct deletes that leaves at most one entry, optionally re-inserting the first deleted key
+		var perms func(cur []int, used int)
+		var seqs [][]int
+		perms = func(cur []int, used int) {
+			if n-len(cur) <= 1 {
+				seqs = append(seqs, append([]int{}, cur...))
+			}
+			for i := 0; i < n; i++ {
+				if used>>i&1 == 0 {
+					perms(append(cur, i), used|1<<i)
+				}
+			}
+		}
+		perms(nil, 0)
+		for _, sq := range seqs {
+			for _, reinsert := range []bool{false, true} {
+				if reinsert && len(sq) != n {
+					continue // re-insert only into the emptied map: the result still has a single entry
+				}
+				var b strings.Builder
+				b.WriteString("import \"fmt\"\ntype Q struct {\n\tM map[" + k.typ + "]int\n}\nm := map[" + k.typ + "]int{")
+				for i, l := range k.lits {
+					if i > 0 {
+						b.WriteString(", ")
+					}
+					fmt.Fprintf(&b, "%s: %d", l, i+1)
+				}
+				b.WriteString("}\n")
+				live := map[int]int{}
+				for i := range k.lits {
+					live[i] = i + 1
+				}
+				for _, d := range sq {
+					fmt.Fprintf(&b, "delete(m, %s)\n", k.lits[d])
+					delete(live, d)
+				}
+				if reinsert {
+					fmt.Fprintf(&b, "m[%s] = 9\n", k.lits[sq[0]])
+					live[sq[0]] = 9
+				}
+				w := "map[]"
+				for i, v := range live {
+					w = fmt.Sprintf("map[%s:%d]", k.show[i], v)
+				}
+				for _, form := range [][2]string{{"x := m\n", w}, {"x := []map[" + k.typ + "]int{m, m}\n", "[" + w + " " + w + "]"}, {"x := &Q{M: m}\n", "&{M:" + w + "}"}} {
+					run("past-map", b.String()+form[0]+tail, c14expectScript(form[1]))
+				}
+			}
+		}
+	}
+	// slices with a past
+	for _, c := range [][2]string{
+		{"s := []int{1, 2, 3}\ns = s[:1]\nx := s\n", "[1]"},
+		{"s := []int{1, 2, 3}\nt := s[1:2]\nt = append(t, 9)\nx := s\n", "[1 2 9]"},
+		{"s := make([]int, 2)\ns = append(s, 5)\nx := s[1:]\n", "[0 5]"},
+		{"var s []string\ns = append(s, \"a b\")\ns = append(s, \"\")\nx := s\n", "[a b ]"},
+		{"s := [][]int{{1}, {2, 3}}\ns[0] = s[1][:1]\ns[1] = nil\nx := s\n", "[[2] []]"},
+		{"s := []byte(\"hi\")\ns[0]++\nx := s\n", "[105 105]"},
+	} {
+		run("past-slice", "import \"fmt\"\n"+c[0]+tail, c14expectScript(c[1]))
+	}
+	// struct types declared again
+	decl := "type P struct {\n\tB int\n\tA string\n\tT []int\n}\n"
+	for _, again := range []string{decl, "type P struct {\n\tB int\n\tA string\n\tT []int\n\tC float64\n}\n"} {
+		for _, mode := range []string{"Eval", "Load"} {
+			m := goat.New()
+			imports := map[string]string{}
+			extra := ""
+			if again != decl {
+				extra = " C:0"
+			}
+			var r1, r2, r3 goat.Result
+			// (how an instance created before a field was added renders is not fixed by the property: it is only printed
+			// when the declaration is repeated unchanged)
+			use := "x := &P{B: 2, A: \"m\"}\nprintln(x)\nfmt.Println(x)\nfmt.Print(fmt.Sprint(old))\n"
+			want := "&{B:2 A:m T:[]" + extra + "}\n&{B:2 A:m T:[]" + extra + "}\n&{B:1 A:o T:[7]}"
+			if again != decl {
+				use = strings.Replace(use, "fmt.Print(fmt.Sprint(old))", "fmt.Print(len(fmt.Sprint(old)) > 0)", 1)
+				want = "&{B:2 A:m T:[]" + extra + "}\n&{B:2 A:m T:[]" + extra + "}\ntrue"
+			}
+			if mode == "Eval" {
+				r1 = m.Eval(nil, "import \"fmt\"\n"+decl+"old := &P{B: 1, A: \"o\", T: []int{7}}\n", goatlang.WithEvalImports(imports))
+				r2 = m.Eval(nil, again, goatlang.WithEvalImports(imports))
+				m.Out.Reset()
+				r3 = m.Eval(nil, use, goatlang.WithEvalImports(imports))
+			} else {
+				pkg := func(d string) map[string]string {
+					return map[string]string{"q/q.go": "package q\n\nimport \"fmt\"\n\n" + d + "\nvar old = &P{B: 1, A: \"o\", T: []int{7}}\n\nfunc Use() {\n\t" + strings.ReplaceAll(strings.TrimSpace(use), "\n", "\n\t") + "\n}\n"}
+				}
+				r1 = m.Load(goat.FS(pkg(decl)), "q")
+				// state is kept across a reload only where the declaration is not run again; here `old` is rebuilt by the reload
+				r2 = m.Load(goat.FS(pkg(again)), "q")
+				m.Out.Reset()
+				r3 = m.Call("q.Use", 0)
+			}
+			got := m.Out.String()
+			if r1.Failed() || r2.Failed() || r3.Failed() {
+				got = "first: " + r1.String() + "; again: " + r2.String() + "; use: " + r3.String()
+			}
+			m.Close()
+			r.Eval(3)
+			key := "struct type declared again (" + mode + "):\n" + decl + "... then ...\n" + again + use
+			r.Nontrivial(key)
+			if got != want {
+				r.Fail(&report.Case{Kind: "past-struct", Key: key, Want: want, Got: got})
+			}
+		}
 	}
 }
 
@@ -774,6 +911,11 @@ func c14isCyclic(g c14graph) bool {
 }
 
 func c14rerun(c *report.Case) (bool, string) {
+	if c.Kind == "past-struct" {
+		rr := report.New("C14", "quick")
+		c14past(rr)
+		return rr.Violations() > 0, fmt.Sprintf("%d failing cases in the values-with-a-past family", rr.Violations())
+	}
 	var in c14case
 	if !remarshal(c.Input, &in) {
 		return false, "bad input"
